@@ -53,7 +53,8 @@ impl<F: Float + SampleUniform> Distribution<[F; 2]> for UnitCircle {
             x1 = uniform.sample(rng);
             x2 = uniform.sample(rng);
             sum = x1 * x1 + x2 * x2;
-            if sum < F::from(1.).unwrap() {
+            // The origin is rejected too: it has no direction (`0/0` below).
+            if sum < F::from(1.).unwrap() && sum > F::zero() {
                 break;
             }
         }
